@@ -124,16 +124,21 @@ CHECKS.update({
     "C11": ("proof",
             "Kernel-checked: prefix_stable (any run that does not hit the end of the prefix behaves identically on the complete data: Ok, data errors and panics alike), "
             "read_sample_prefix, open_prefix_moov (same ftyp/moov, moofs of the prefix reader are a prefix), truncated_unfragmented and truncated_fragmented (samples read through "
-            "the prefix reader equal those of the complete file in bytes and timing). Oracle: EVERY cut of generated (all layouts) and canned files on the real reader.",
+            "the prefix reader equal those of the complete file in bytes and timing). Props/C11Open.v composes them with C01 and C03 and removes the fuel coupling: whatever a reader opened on "
+            "ANY prefix (any fuel) of the muxer's bytes returns is that sample of the history (C11_mux_prefix), and on any prefix of the ISO rendering of any consistent movie (either box order) it is the "
+            "specification's sample with the complete file's bytes, lying inside the prefix (C11_file_prefix); Props/C11Frag.v: the same for fragmented files ftyp moov (moof mdat)* from bytes — the prefix reader holds exactly the "
+            "moofs that start before the cut, and every sample it returns for a track with a fragment in the prefix is the specification's sample of the COMPLETE file (sync flag excluded, see Props/C11.v). Oracle: EVERY cut of generated (all layouts) and canned files on the real reader.",
             "Coq prefix-stability proofs + exhaustive cut enumeration",
-            "Known finding D92 (hybrid files with sample table AND fragments). Same fuel for prefix and full run in the theorems. " + TB),
+            "Known finding D92 (hybrid files with sample table AND fragments). Props/C11.v uses the same fuel for prefix and full run; Props/C11Open.v does not (open_fuel_more). " + TB),
     "C12": ("proof",
             "Kernel-checked mechanisms (Props/C12.v): 64-bit headers decode identically (hdr64, 13 boxes + generic), unknown/free boxes are skipped by the loop combinator in "
             "every guard configuration (instances: top level and 10 containers), spare bytes after fixed-layout and table boxes are ignored (13 boxes), different-typed siblings "
             "commute; layout_invariance for ten containers and the top level; sample offsets shift with the data. Oracle: metamorphic comparison of layout variants on the real reader.",
             "Coq proofs of the skipping/commutation mechanisms + metamorphic layout variants",
             "Props/C12Tree.v: the property as ONE theorem over box trees (C12_tree_canonical, C12_tree_forward) for trees with a structural decoding (every ISO rendering of well-formed values); "
-            "the first formalisation over arbitrary trees is refuted (C12_first_statement_is_false). Fragmented files are outside the tree theorem; stsd/edts/hev1/vp09/dref read one child and are "
+            "the first formalisation over arbitrary trees is refuted (C12_first_statement_is_false). Fragmented files are outside the tree theorem and have Props/C12Frag.v: a fragmented file as any list of top-level items "
+            "(ftyp, moov, moof, mdat, emsg in either header form, skipped boxes, any order); two lists with the same logical content open to equal per-sample results with offsets shifted by exactly the moof "
+            "displacement (C12_frag_layout). stsd/edts/hev1/vp09/dref read one child and are "
             "outside 'containers that iterate'. " + TB),
     "C15": ("proof",
             "PARTIAL. Kernel-checked for the model: read_sample's result is independent of the stream position, the stream content is immutable, and any schedule of calls "
@@ -154,7 +159,9 @@ CHECKS.update({
             "with small constants (16n+10000 calls, 32n+100000 bytes) and a watchdog on scaled adversarial families.",
             "Coq metered-cost proofs + meter/counter equality + budgeted exploration",
             "The theorem's constants are crude (A ~ 7e16: constant bounds for the u8/u16-counted codec records enter at every nesting level); the run-time budget is far tighter. CPU cost "
-            "of the pure lookups (no stream calls) is not metered in the model: covered by per-call wall time in the oracle. " + TB),
+            "of the pure lookups (no stream calls): Props/C07Lookup.v — instrumented copies of every lookup loop of track.rs (first component proved equal to the model's lookup) perform at most "
+            "5*table_weight+1 iterations per read_sample for EVERY track value, and table_weight of an opened file <= the stream calls of opening <= A*n+B; the iteration counters themselves are "
+            "not observable in the Rust code (no hook), the oracle measures per-call wall time. " + TB),
     "C08": ("proof",
             "Kernel-checked (Props/C08.v, C08_statement): for every byte string the largest single allocation request and the total requested while opening are bounded by A'*n + B' "
             "(every count field is checked against the enclosing box size before Vec::with_capacity; box sizes are bounded by the parent, ultimately by the file length); read_sample "
